@@ -783,6 +783,11 @@ func evalC08(c string) Result {
 
 func genHostsFile(rng *rand.Rand) []byte {
 	var sb bytes.Buffer
+	if rng.IntN(10) == 0 {
+		// byte-order marks and other "magic" stream prefixes: content sniffing done on whatever
+		// the first Read returned depends on the fragmentation
+		sb.WriteString(pick(rng, "\xef\xbb\xbf", "\xef\xbb\xbf", "\xef\xbb", "\xef", "\xff\xfe", "\xfe\xff", "\x00", "\x1f\x8b", "\xef\xbb\xbf\xef\xbb\xbf", "\r\n", "\n"))
+	}
 	nl := pick(rng, 0, 1, 1, 2, 3, 4, 5, 6, 8, 12)
 	for i := 0; i < nl; i++ {
 		var line string
